@@ -180,7 +180,7 @@ NewItems == {<< <<"name", S(3)>> >>}
 ListPatches(orig) ==
     LET full == FullListPatches(orig)
         pre  == {SubSeq(p, 1, n) : p \in full, n \in 1..Len(orig)}                  \* shorter than the original
-        ext  == {p \o <<D(x)>> : p \in full, x \in NewItems}                         \* extra items
+        ext  == IF Len(orig) < 3 THEN {p \o <<D(x)>> : p \in full, x \in NewItems} ELSE {}   \* extra items (lists stay short)
     IN  (pre \cup ext) \ {<<>>}
 
 NamePatch(d1)   == KeyPatch(d1, "name", {S(2), L(<<N(2)>>)})
@@ -244,7 +244,11 @@ HInit == /\ \E d1 \in D1 : case = [kind |-> "start", res |-> D(d1)]
          /\ hist = <<>>
 HNext == /\ Len(hist) < MaxHist
          /\ LET d1 == case.res.items
-                d2 == RandomElement(Patches(d1))
+                \* (one random choice per top-level key instead of the whole product of patches)
+                p  == RandomElement(NamePatch(d1)) \o RandomElement(SubPatch(d1)) \o RandomElement(LayersPatch(d1))
+                      \o RandomElement(ZPatch(d1))
+                q  == IF p = <<>> THEN RandomElement(ZPatch(d1) \ {<<>>}) ELSE p
+                d2 == IF RandomElement(BOOLEAN) THEN q ELSE Reverse(q)
                 ow == RandomElement(OwSet)
             IN  /\ case' = UpdateCase(d1, d2, ow)
                 /\ hist' = Append(hist, case')
